@@ -221,6 +221,8 @@ def f_value(E, node):
     """value(d, 'key'): the stored value irrespective of presence"""
     d = E.eval(node.args[0])
     k = E.eval(node.args[1])
+    if k not in d.items:
+        return None
     return d.items[k][1]
 
 
@@ -258,4 +260,13 @@ def f_call_arg(E, node):
     for q, bound, res in reversed(E.st.calls):
         if q == qual:
             return bound[name]
+    raise Unsupported('no logged call of %s' % qual)
+
+
+@form('call_result')
+def f_call_result(E, node):
+    qual = E.eval(node.args[0])
+    for q, bound, res in reversed(E.st.calls):
+        if q == qual:
+            return res
     raise Unsupported('no logged call of %s' % qual)
